@@ -354,7 +354,7 @@ def describe(tier):
                     " of C12's; (b) corpus (README example, one statement per operand class, interacting PCR program) closed under "
                     "line deletion/duplication/swap and per-line operators (delete/duplicate/swap each field, no separator, tabs, "
                     "lower-case operand, drop first/last operand char, delete each operand char, insert each of 24 punctuation characters at "
-                    "every operand position, missing final newline); (c) every line of <= {} fields over {}; (d) 11 include graphs".format(
+                    "every operand position, missing final newline); (c) every line of <= {} fields over {}; (d) 11 include graphs; (e) symbols whose EQU operand is not one number (expression, pair, alias, indexed / immediate / bracketed shapes, a register name) used alone and as a term of label+-symbol in 13 operand positions".format(
                         4 if tier == "thorough" else 3, LINE_ALPHA),
         "bound": "single mutations; lines of <= {} fields; include depth 3".format(4 if tier == "thorough" else 3),
         "oracle": "outcome in {image+listing+symbols, ParseError/TranslationError whose statement text names a token of the input}; any other "
